@@ -602,9 +602,9 @@ func init() {
 			switch k := r.Intn(13); {
 			case k < 3:
 				s.Kind = "char"
-				cc := genCharCfg(r, charOpt{maxLen: 12, maxReq: 4, noEmptied: true})
+				cc := genCharCfg(r, charOpt{maxLen: 12, maxReq: 4, noEmptied: r.Chance(0.7)})
 				if r.Chance(0.5) { // non-ASCII alphabet only
-					cc = genCharCfg(r, charOpt{maxLen: 12, maxReq: 3, taint: true, noEmptied: true})
+					cc = genCharCfg(r, charOpt{maxLen: 12, maxReq: 3, taint: true, noEmptied: r.Chance(0.7)})
 				}
 				s.Char = &cc
 			case k < 7:
